@@ -24,10 +24,14 @@ def _val(env, op):
 
 
 def eval_char_pred(body, ch):
+    return _eval_char_pred(body, ch, 2 if body.is_closure else 1)
+
+
+def _eval_char_pred(body, ch, pidx):
     """abstractly evaluate a pure predicate body on the character value `ch` (finite partition of
     the input domain; only comparisons / boolean ops / switches are understood).  None = not a
     shape this evaluator reads (fail closed)."""
-    env = {1: ch}
+    env = {pidx: ch}
     bb = 0
     for _ in range(400):
         blk = body.blocks[bb]
@@ -125,15 +129,52 @@ class TokRoles:
         adv_calls = [c for c in tn.live_calls if c.ruid in self.tm.char_adv]
         # the dispatching advance: the one whose result feeds a switch in TOKEN-NEXT
         self.dispatch_adv = adv_calls[0] if adv_calls else None
-        # skipper: a local call on &mut self that dominates the dispatching advance and loops with an advance guarded by a char predicate
+        # skipper: a local call on &mut self that dominates the dispatching advance and loops with an
+        # advance guarded by a char predicate (given directly, or handed in as a fn / closure argument)
         if self.dispatch_adv:
             for c in tn.live_calls:
                 if c.ruid and c is not self.dispatch_adv and tn.dominates(c.bb, self.dispatch_adv.bb) and c.bb != self.dispatch_adv.bb:
                     g = prog.by_id[c.ruid]
-                    preds = self._char_preds_guarding_advance(g)
-                    if preds:
+                    pred = self._skipper_pred(tn, c, 0)
+                    if pred is not None:
                         self.skipper = (c, g)
-                        self.ws_pred = preds[0]
+                        self.ws_pred = pred
+                        break
+
+    def _skipper_pred(self, caller, c, depth):
+        """the char predicate that guards the advance loop entered through call c (or None)"""
+        prog = self.prog
+        if depth > 3 or c.ruid is None:
+            return None
+        g = prog.by_id[c.ruid]
+        preds = self._char_preds_guarding_advance(g)
+        if preds:
+            p = preds[0]
+            if isinstance(p, tuple) and p[0] == 'param':
+                # predicate handed in as parameter k of g: the argument at this call site
+                k = p[1]
+                if k - 1 < len(c.args):
+                    return self._fn_value(caller, c.args[k - 1])
+                return None
+            return p
+        # a forwarder: g just calls something that loops
+        for cc in g.live_calls:
+            if cc.ruid is not None and cc.term['arg_tys'] and cc.term['arg_tys'][0].startswith('&mut '):
+                r = self._skipper_pred(g, cc, depth + 1)
+                if r is not None:
+                    return r
+        return None
+
+    def _fn_value(self, body, op):
+        """local body a fn-typed operand denotes: a fn item constant or a closure"""
+        o = single_origin(trace_operand(body, op, through_calls=set()))
+        if o is None:
+            return None
+        if o.kind == 'const' and 'fn' in o.data and o.data['fn'].get('local'):
+            return self.prog.by_id.get(o.data['fn']['uid'])
+        if o.kind == 'agg' and o.data[2]['agg'] == 'closure':
+            return self.prog.by_id.get(o.data[2]['closure'])
+        return None
 
     def _char_preds_guarding_advance(self, g):
         out = []
@@ -148,10 +189,19 @@ class TokRoles:
             if src is None:
                 continue
             tc, parity = src
-            if tc.ruid is None:
-                continue
-            p = self.prog.by_id[tc.ruid]
-            if p.locals[0]['ty'] == 'bool' and p.arg_count == 1 and p.locals[1]['ty'] == 'char':
+            p = None
+            if tc.ruid is not None:
+                p = self.prog.by_id[tc.ruid]
+                if not (p.locals[0]['ty'] == 'bool' and p.arg_count == 1 and p.locals[1]['ty'] == 'char'):
+                    p = None
+            else:
+                # indirect / generic call of a predicate handed in as a parameter of g
+                fop = tc.term['func'] if tc.is_indirect else (tc.args[0] if tc.args else None)
+                if fop is not None and tc.term['dest']['ty'] == 'bool':
+                    fo = single_origin(trace_operand(g, fop, through_calls=set()))
+                    if fo is not None and fo.kind == 'param' and not fo.proj:
+                        p = ('param', fo.data)
+            if p is not None:
                 listed = [v for v, _ in t['targets']]
                 for v, tb in switch_edges(g, sb):
                     tv = (1 if listed == [0] else 0 if listed == [1] else None) if v == 'otherwise' else (1 if v != 0 else 0)
